@@ -5,12 +5,15 @@ RaggedArray and evaluates, after every step, the enabled monitors:
  'ifd'     independent structural decode of the directory (C05)
  'readme'  the three README files are current (C08)
 """
+import os
 import random
 import re
+from pathlib import Path
 
 import numpy as np
 
 from . import decoder, gens
+from .common import spelled_path
 from .monitors import bits_equal, check_array_readme, describe, same_dtype
 
 REJECT = object()
@@ -22,8 +25,8 @@ class Partial:
         self.state = state
 
 ALPHABET = ['app0', 'app1', 'app3', 'applist', 'iter2', 'iter0', 'trunc0', 'trunc1', 'truncm1', 'trunclen',
-            'modecycle', 'reopen']
-EXTRA = ['iterfail_atom', 'iterfail_raise', 'iterfail_first', 'appbadrank', 'appbadatom', 'appother', 'itergen', 'truncmid', 'trunclen1', 'truncstr', 'truncbelow', 'truncfloat', 'md_set', 'md_pop',
+            'modecycle', 'reopen', 'ctx:app1+app3']
+EXTRA = ['ctx:app3+iter2+app0', 'iterfail_atom', 'iterfail_raise', 'iterfail_first', 'appbadrank', 'appbadatom', 'appother', 'itergen', 'truncmid', 'trunclen1', 'truncstr', 'truncbelow', 'truncfloat', 'md_set', 'md_pop',
          'copy', 'recreate', 'app1', 'app3', 'iter2']
 PATTERNS = {'two': [2, 1], 'withempty': [2, 0], 'onlyempty': [0], 'seven': [1, 0, 0, 4, 2, 0, 3], 'one': [3],
             'five': [1, 2, 0, 1, 1], 'six': [1, 1, 1, 1, 0, 2]}
@@ -70,6 +73,28 @@ def build(op, model, rng, dtype, atom):
             yield g1
             raise RuntimeError('source failed')
         return Partial(model + done), lambda D, ra, p: (ra.iterappend(iter(seq) if seq is not None else gen()), ra)[1]
+    if op.startswith('ctx:'):   # several appends while the handle's own open_arrays() context stays open
+        parts = op[4:].split('+')
+        items, calls = [], []
+        for q in parts:
+            if q == 'iter2':
+                pair = [item(rng, dtype, atom, 2), item(rng, dtype, atom, 1)]
+                items += pair
+                calls.append(('iter', pair))
+            else:
+                x = item(rng, dtype, atom, int(q[3]))
+                items.append(x)
+                calls.append(('app', x))
+
+        def do(D, ra, p):
+            with ra.open_arrays():
+                for kind, arg in calls:
+                    if kind == 'iter':
+                        ra.iterappend(c for c in arg)
+                    else:
+                        ra.append(arg)
+            return ra
+        return model + items, do
     if op == 'iter2':
         x, y = item(rng, dtype, atom, 2), item(rng, dtype, atom, 0)
         return model + [x, y], lambda D, ra, p: (ra.iterappend([x, y]), ra)[1]
@@ -323,10 +348,19 @@ def run(env, res, case, monitors):
     D = env.darr
     st = case['start']
     d = env.scratch.new('g')
-    path = d / 'ra'
+    apipath, path = spelled_path(d, 'ra', case['vseed'])
+    if apipath != path:
+        res.count('paths.symlink_dotdot')
     try:
         rng0 = random.Random(f"{case['vseed']}:start")
-        ra, model, dtype, atom = make_start(env, D, path, st, rng0)
+        try:
+            ra, model, dtype, atom = make_start(env, D, apipath, st, rng0)
+        except Exception as e:
+            res.fail(f'start:creation-raised:{type(e).__name__}',
+                     f'creating the start state {st} at {"<symlink>/../ra" if apipath != path else "ra"} raised '
+                     f'{type(e).__name__}: {str(e)[:200]}', pathform='symlink/..' if apipath != path else 'plain')
+            res.nontrivial = True
+            return
         nchanges = 0
         want_indextype = st['indextype']
         for i, op in enumerate([None] + list(case['ops'])):
@@ -337,7 +371,7 @@ def run(env, res, case, monitors):
                 expected, do = build(op, model, rng, dtype, atom)
                 raised = None
                 try:
-                    new = do(D, ra, path)
+                    new = do(D, ra, apipath)
                 except Exception as e:
                     raised = e
                 if isinstance(expected, Partial):
@@ -382,7 +416,8 @@ def run(env, res, case, monitors):
                         return
                     ra = new
                     if getattr(do, 'newpath', False):
-                        path = ra.path
+                        apipath = ra.path
+                        path = Path(os.path.realpath(ra.path))
                         want_indextype = None   # the statement does not fix the index type of a copy
                     if len(expected) != len(model) or op in ('recreate',):
                         nchanges += 1
